@@ -223,6 +223,9 @@ func RegexFullMatch(pattern, s string) bool {
 	return regexFullMatchNative(pattern, s)
 }
 
+// RegexUF is a regular-expression full match that the engine treats as an uninterpreted predicate.
+func RegexUF(pattern, s string) bool { return regexFullMatchNative(pattern, s) }
+
 // RunReplay runs the harness named in $VERIF_REPLAY and prints the outcome.
 func RunReplay(t *testing.T, harnesses map[string]func()) {
 	r := load()
